@@ -68,6 +68,8 @@ pub struct Cfg {
     pub omit_cols: bool,
     pub max_virtual: usize,
     pub min_virtual: usize,
+    /// add a bus of 16..65 one-bit outputs O0.. so that bits(k,e) with k up to 64 fits in a row
+    pub bus: bool,
     pub max_depth: usize,
     pub max_block: usize,
     pub w_row: u32,
@@ -114,6 +116,7 @@ impl Cfg {
             omit_cols: false,
             max_virtual: 0,
             min_virtual: 0,
+            bus: false,
             max_depth: 5,
             max_block: 7,
             w_row: 10,
@@ -254,6 +257,12 @@ pub fn gen_signals(ch: &mut Ch, cfg: &Cfg) -> Vec<Sig> {
                     kind: Kind::In(gen_default(ch, cfg.wild_defaults)),
                 });
             }
+        }
+    }
+    if cfg.bus {
+        let n = *ch.choose(&[33usize, 16, 64, 65, 40]);
+        for k in 0..n {
+            sigs.push(Sig { name: format!("O{k}"), bits: 1, kind: Kind::Out });
         }
     }
     if cfg.interleave {
@@ -694,9 +703,16 @@ impl<'a> PGen<'a> {
         let mut after_zero_bits = false;
         while j < ncols {
             if cfg.bits_entries && !after_zero_bits && ch.chance(1, 8) {
-                let remaining = ncols - j;
-                let k = ch.upto(remaining + 1);
-                let e = self.expr(ch, 2);
+                let remaining = (ncols - j).min(64);
+                let mut k = ch.upto(remaining + 1);
+                if remaining == 64 && ch.chance(1, 4) {
+                    k = 64;
+                }
+                let mut e = self.expr(ch, 2);
+                if k > 8 {
+                    // high bits matter: mix in a non-palindromic 63-bit pattern
+                    e = Expr::bin(BinOp::Xor, e, Expr::lit(0x2D3C_4B5A_6978_8796));
+                }
                 es.push(Entry::Bits(k as u8, e));
                 j += k;
                 after_zero_bits = k == 0;
